@@ -1,6 +1,7 @@
 package main
 
 import (
+	"golang.org/x/tools/go/ssa"
 	"fmt"
 	"go/ast"
 	"go/constant"
@@ -64,6 +65,7 @@ type Env struct {
 	facts    *[]Term                      // heap well-formedness facts about values read (hoistable ones only)
 	entry    map[string]TV                // entry values of parameters that were reassigned (visible through old(...))
 	cellPtr  func(name string) (Term, types.Type, bool) // address of a captured variable (frame / guarded targets)
+	fnCtx    *ssa.Function // the function whose contract is being evaluated (callee at call sites); nil = the function under verification
 }
 
 func (e *Env) child() *Env {
@@ -1126,6 +1128,9 @@ func (e *Env) trCall(x *ast.CallExpr) TV {
 			e.fail(x, "forkarg(k, paramName)")
 		}
 		root := vc.fn
+		if e.fnCtx != nil {
+			root = e.fnCtx
+		}
 		for root != nil && root.Parent() != nil {
 			root = root.Parent()
 		}
